@@ -2,6 +2,7 @@ package server
 
 import (
 	"encoding/base64"
+	"errors"
 	"sync"
 	"sync/atomic"
 	"time"
@@ -13,6 +14,9 @@ import (
 )
 
 const defaultUploadInterval = 1 * time.Minute
+
+// ErrBadRate is returned by GetUser for a user record whose UpRate or DownRate is not positive
+var ErrBadRate = errors.New("user's bandwidth rate is not positive")
 
 // userPanel is used to authenticate new users and book keep active users
 type userPanel struct {
@@ -71,6 +75,11 @@ func (panel *userPanel) GetUser(UID []byte) (*ActiveUser, error) {
 	upRate, downRate, err := panel.Manager.AuthenticateUser(UID)
 	if err != nil {
 		return nil, err
+	}
+	if upRate <= 0 || downRate <= 0 {
+		// mux.MakeValve (ratelimit.NewBucketWithRate) panics on a rate that is not positive. A record
+		// with a missing, zero or negative rate must not take the server down when its owner connects
+		return nil, ErrBadRate
 	}
 	valve := mux.MakeValve(upRate, downRate)
 	user := &ActiveUser{
